@@ -797,7 +797,9 @@ impl RuleCatalog {
         let content = serde_json::to_string_pretty(&catalog_file)
             .map_err(|e| format!("Failed to serialize catalog: {e}"))?;
 
-        fs::write(&self.catalog_path, content)
+        // Not `fs::write`: a crash while the file is rewritten in place would leave it
+        // empty or torn, and a catalog that does not parse makes the store unopenable.
+        crate::storage::metadata::write_file_atomic(&self.catalog_path, content.as_bytes())
             .map_err(|e| format!("Failed to write catalog: {e}"))?;
 
         self.dirty = false;
